@@ -19,6 +19,7 @@ import ast
 from ..astutil import call_name, calls, const_eval, dotted, names_in, param_names, stmts, walk_local, NotConst, Sym
 from ..cfg import CFG
 from .. import bcifwire
+from ..exprnorm import contains_expr
 from ..core import AnalysisError, Mutant
 
 EXPLANATION = (
@@ -207,7 +208,7 @@ def compress_rules(ctx, R="R3", with_downcast=True):
     # decimal places honour the tolerance
     gd_ = cz.func("_get_decimal_places")
     ctx.ob(R + ".tolerance", COMPRESS, "_get_decimal_places", "error < tol * |x| for all finite non-zero values",
-           "np.all(error < tol * np.abs(array))" in ast.unparse(gd_) and "np.isfinite(array) & (array != 0)" in ast.unparse(gd_),
+           contains_expr(gd_, "np.all(error < tol * np.abs(array))") and contains_expr(gd_, "np.isfinite(array) & (array != 0)"),
            "the number of decimals must be chosen so that the relative error stays below the tolerance", gd_.lineno,
            nontrivial=False)
 
